@@ -163,6 +163,12 @@ def fresh(pp, water, salt, names=PLAIN):
             'D1': C('D', initial_contents=[(water, '1 mL')]), 'D2': C('D', initial_contents=[(water, '2 mL')])}
 
 
+def fresh_str(x):
+    """An equal but distinct str object (names built at run time - f-strings in a loop - are never the same object as
+    the one stored by an earlier call; literals are interned and would be)."""
+    return ''.join(list(x))
+
+
 def do(r, o, sym, water, salt):
     A, B, P, X = o['A'], o['B'], o['P'], o['X']
     if sym == 'usesL_BP':
@@ -214,15 +220,15 @@ def do(r, o, sym, water, salt):
     elif sym == 'fillX':
         r.fill_to(X, water, '50 mL')
     elif sym == 'st1':
-        r.start_stage('s1')
+        r.start_stage(fresh_str('s1'))
     elif sym == 'st2':
-        r.start_stage('s2')
+        r.start_stage(fresh_str('s2'))
     elif sym == 'stall':
-        r.start_stage('all')
+        r.start_stage(fresh_str('all'))
     elif sym == 'en1':
-        r.end_stage('s1')
+        r.end_stage(fresh_str('s1'))
     elif sym == 'en2':
-        r.end_stage('s2')
+        r.end_stage(fresh_str('s2'))
     elif sym == 'bake':
         return r.bake()
 
